@@ -88,7 +88,7 @@ def gen_call(rng):
 def validate(ctx, calls, embs, label, nproc=12):
     jobs = []
     for c, e in zip(calls, embs):
-        jobs.append(dict(dgms=[[[e.f(b), e.f(d) if f else float("inf")] for b, d, f in dg] for dg in c["dgms"]], keepinf=c["keepinf"], hasvi=c["hasvi"],
+        jobs.append(dict(flagtype=len(jobs) % 3, dgms=[[[e.f(b), e.f(d) if f else float("inf")] for b, d, f in dg] for dg in c["dgms"]], keepinf=c["keepinf"], hasvi=c["hasvi"],
                          vi=e.f(c["vi"]), normalize=c["normalize"], islist=c["islist"],
                          second=(dict(c["second"], vi=e.f(c["second"]["vi"])) if c.get("second") else None)))
     results, _ = run_driver_parallel("entropy.py", jobs, nproc=nproc)
